@@ -195,8 +195,18 @@ func (p pPOM) render() string {
 
 type repo map[string]string // key -> pom.xml text
 
+// decoded holds each file decoded once per case (compare resets it): a caller
+// that keeps decoded projects and merges one parent into several children is
+// the ordinary way to use the package, and nothing merged into a child may
+// show up in another child of the same parent.
+var decoded = map[string]maven.Project{}
+
 func (r repo) fetch(pk maven.ProjectKey) (maven.Project, error) {
-	x, ok := r[string(pk.GroupID)+":"+string(pk.ArtifactID)+":"+string(pk.Version)]
+	key := string(pk.GroupID) + ":" + string(pk.ArtifactID) + ":" + string(pk.Version)
+	if p, ok := decoded[key]; ok {
+		return p, nil
+	}
+	x, ok := r[key]
 	if !ok {
 		return maven.Project{}, errors.New("not found")
 	}
@@ -204,6 +214,7 @@ func (r repo) fetch(pk maven.ProjectKey) (maven.Project, error) {
 	if err := xml.Unmarshal([]byte(x), &p); err != nil {
 		return maven.Project{}, err
 	}
+	decoded[key] = p
 	return p, nil
 }
 
@@ -286,7 +297,9 @@ func normRow(r row) row {
 	if r.Kind == "D" && r.Scope == "" {
 		r.Scope = "compile"
 	}
-	if r.Optional == "" {
+	if strings.EqualFold(r.Optional, "true") {
+		r.Optional = "true"
+	} else if !unresolved(r.Optional) {
 		r.Optional = "false"
 	}
 	return r
@@ -304,7 +317,14 @@ func goRows(p maven.Project) []row {
 		for _, e := range d.Exclusions {
 			ex = append(ex, string(e.GroupID)+":"+string(e.ArtifactID))
 		}
-		return normRow(row{kind, string(d.GroupID), string(d.ArtifactID), string(d.Version), string(d.Type), string(d.Classifier), string(d.Scope), string(d.Optional), strings.Join(ex, ",")})
+		// the optional flag is compared as the boolean each side makes of it
+		// (Maven: Boolean.parseBoolean, i.e. "true" in any letter case)
+		opt := d.Optional
+		optional := "false"
+		if opt.Boolean() {
+			optional = "true"
+		}
+		return normRow(row{kind, string(d.GroupID), string(d.ArtifactID), string(d.Version), string(d.Type), string(d.Classifier), string(d.Scope), optional, strings.Join(ex, ",")})
 	}
 	for _, d := range p.Dependencies {
 		out = append(out, conv("D", d))
@@ -412,6 +432,7 @@ func dropRepeats(rs []row) []row {
 
 func compare(c lineageCase) (verdict, error) {
 	r := repo(c.Files)
+	decoded = map[string]maven.Project{}
 	mv, err := askMaven(r, c.Root)
 	if err != nil {
 		return verdict{}, err
@@ -653,6 +674,23 @@ func drawLineage(t *rapid.T, o genOpts) lineage {
 				p.Profiles = drawProfiles(t, nil, o)
 			}
 			bomPOMs = append(bomPOMs, p)
+		}
+	}
+	// Two BOMs may share a parent (one decoded parent merged into two
+	// children): a later BOM without ancestors of its own adopts the first
+	// ancestor of BOM 0.
+	shared := -1
+	for i, p := range bomPOMs {
+		if p.A == "b0p1" {
+			shared = i
+		}
+	}
+	if shared >= 0 {
+		for i := range bomPOMs {
+			p := &bomPOMs[i]
+			if p.Parent == nil && p.A != "b0" && !strings.Contains(p.A, "p") && rapid.Bool().Draw(t, "sharedparent") {
+				p.Parent = &[3]string{"bom", "b0p1", bomPOMs[shared].V}
+			}
 		}
 	}
 	na := rapid.IntRange(0, 4).Draw(t, "nancestors")
@@ -1010,6 +1048,14 @@ func TestReplay(t *testing.T) {
 	check, err := ev.ReadReplay(path, &raw)
 	if err != nil {
 		t.Fatal(err)
+	}
+	if check == "merge-isolation" {
+		var c isolationCase
+		json.Unmarshal(raw, &c)
+		if obs, err := isolationViolation(c); err != nil || obs != "" {
+			t.Fatalf("replay fails: %s %v", obs, err)
+		}
+		return
 	}
 	if strings.HasPrefix(check, "interpolation") {
 		var c tableCase
